@@ -205,7 +205,10 @@ class UnitsSerializer(Serializer):
             if matched_regex:
                 data = matched_regex.group(1)
             if data.startswith('nan'):
-                unit_str = data[len('nan'):].strip()
+                # str() of a nan quantity is 'nan <units>'; for units such
+                # as 1 / second it is 'nan / second', so parse the units
+                # with a magnitude of 1 in place of the nan.
+                unit_str = '1' + data[len('nan'):]
                 unit_data = math.nan * units(unit_str)
             else:
                 unit_data = units(data)
